@@ -29,6 +29,10 @@ pub enum Proto {
     DealerRefreshThenSign,
     PreprocessedSign,
     RepairThenSign,
+    /// large threshold (t = n = 72): the round-one secret package is several kilobytes; only the
+    /// first participant's part two is run
+    LargeDkgPart2,
+    LargeRefreshPart2,
 }
 #[derive(Serialize, Deserialize, Clone, Copy, Debug, PartialEq, Eq)]
 pub enum Fmt {
@@ -105,6 +109,15 @@ pub trait Persist: Sized {
 fn es<E: std::fmt::Debug>(e: E) -> String {
     format!("{e:?}")
 }
+/// A stored JSON document is read back three ways - from memory, through a reader (a file) and
+/// through a parsed `Value` - all must succeed (and they decode the same bytes).
+fn json_load<T: DeserializeOwned>(b: &[u8]) -> Result<T, String> {
+    let a: T = serde_json::from_slice(b).map_err(|e| format!("from_slice: {e}"))?;
+    let _r: T = serde_json::from_reader(std::io::Cursor::new(b.to_vec())).map_err(|e| format!("from_reader (state read back from a file): {e}"))?;
+    let v: serde_json::Value = serde_json::from_slice(b).map_err(es)?;
+    let _v: T = serde_json::from_value(v).map_err(|e| format!("from_value: {e}"))?;
+    Ok(a)
+}
 fn fields_enc(v: &Vec<Vec<u8>>) -> Result<Vec<u8>, String> {
     postcard::to_allocvec(v).map_err(es)
 }
@@ -127,7 +140,7 @@ macro_rules! persist_own {
             }
             fn load(b: &[u8], fmt: Fmt) -> Result<Self, String> {
                 match fmt {
-                    Fmt::Json => serde_json::from_slice(b).map_err(es),
+                    Fmt::Json => json_load(b),
                     _ => <$ty>::deserialize(b).map_err(es),
                 }
             }
@@ -152,7 +165,7 @@ impl<C: Suite> Persist for d1::SecretPackage<C> {
     }
     fn load(b: &[u8], fmt: Fmt) -> Result<Self, String> {
         match fmt {
-            Fmt::Json => serde_json::from_slice(b).map_err(es),
+            Fmt::Json => json_load(b),
             Fmt::Postcard => Self::deserialize(b).map_err(es),
             Fmt::Fields => {
                 let f = fields_dec(b, 5)?;
@@ -179,7 +192,7 @@ impl<C: Suite> Persist for d2::SecretPackage<C> {
     }
     fn load(b: &[u8], fmt: Fmt) -> Result<Self, String> {
         match fmt {
-            Fmt::Json => serde_json::from_slice(b).map_err(es),
+            Fmt::Json => json_load(b),
             Fmt::Postcard => Self::deserialize(b).map_err(es),
             Fmt::Fields => {
                 let f = fields_dec(b, 5)?;
@@ -204,7 +217,7 @@ impl<C: Suite> Persist for SecretShare<C> {
     }
     fn load(b: &[u8], fmt: Fmt) -> Result<Self, String> {
         match fmt {
-            Fmt::Json => serde_json::from_slice(b).map_err(es),
+            Fmt::Json => json_load(b),
             Fmt::Postcard => Self::deserialize(b).map_err(es),
             Fmt::Fields => {
                 let f = fields_dec(b, 3)?;
@@ -227,7 +240,7 @@ impl<C: Suite> Persist for KeyPackage<C> {
     }
     fn load(b: &[u8], fmt: Fmt) -> Result<Self, String> {
         match fmt {
-            Fmt::Json => serde_json::from_slice(b).map_err(es),
+            Fmt::Json => json_load(b),
             Fmt::Postcard => Self::deserialize(b).map_err(es),
             Fmt::Fields => {
                 let f = fields_dec(b, 5)?;
@@ -262,7 +275,7 @@ impl<C: Suite> Persist for PublicKeyPackage<C> {
     }
     fn load(b: &[u8], fmt: Fmt) -> Result<Self, String> {
         match fmt {
-            Fmt::Json => serde_json::from_slice(b).map_err(es),
+            Fmt::Json => json_load(b),
             Fmt::Postcard => Self::deserialize(b).map_err(es),
             Fmt::Fields => {
                 let f: Vec<Vec<u8>> = postcard::from_bytes(b).map_err(es)?;
@@ -285,7 +298,7 @@ impl<C: Suite> Persist for SigningNonces<C> {
     }
     fn load(b: &[u8], fmt: Fmt) -> Result<Self, String> {
         match fmt {
-            Fmt::Json => serde_json::from_slice(b).map_err(es),
+            Fmt::Json => json_load(b),
             Fmt::Postcard => Self::deserialize(b).map_err(es),
             Fmt::Fields => {
                 let f = fields_dec(b, 2)?;
@@ -306,7 +319,7 @@ macro_rules! persist_scalar {
             }
             fn load(b: &[u8], fmt: Fmt) -> Result<Self, String> {
                 match fmt {
-                    Fmt::Json => serde_json::from_slice(b).map_err(es),
+                    Fmt::Json => json_load(b),
                     _ => <$ty>::deserialize(b).map_err(es),
                 }
             }
@@ -325,7 +338,7 @@ impl<C: Suite> Persist for SignatureShare<C> {
     }
     fn load(b: &[u8], fmt: Fmt) -> Result<Self, String> {
         match fmt {
-            Fmt::Json => serde_json::from_slice(b).map_err(es),
+            Fmt::Json => json_load(b),
             Fmt::Postcard => postcard::from_bytes(b).map_err(es),
             Fmt::Fields => SignatureShare::<C>::deserialize(b).map_err(es),
         }
@@ -518,6 +531,8 @@ fn run_proto<C: Suite>(env: &mut Env, proto: Proto, n: u16, t: u16, seed: &str) 
             env.out("signature".to_string(), &sig);
             Ok(())
         }
+        Proto::LargeDkgPart2 => large_part2::<C>(env, false, seed),
+        Proto::LargeRefreshPart2 => large_part2::<C>(env, true, seed),
         Proto::RepairThenSign => {
             let g = make_group::<C>(KeySrc::Dealer, n, t, IdKind::U16x, seed)?;
             let lost = g.ids[0];
@@ -553,6 +568,29 @@ fn run_proto<C: Suite>(env: &mut Env, proto: Proto, n: u16, t: u16, seed: &str) 
             sign_phase::<C>(env, &sub, &g.pkp, t, seed)
         }
     }
+}
+
+fn large_part2<C: Suite>(env: &mut Env, refresh: bool, seed: &str) -> Result<(), String> {
+    let n = 72u16;
+    let ids: Vec<Id<C>> = (1..=n).map(|i| Identifier::<C>::try_from(i).unwrap()).collect();
+    let mut p1 = BTreeMap::new();
+    let mut mine = None;
+    for id in &ids {
+        let mut rng = ScriptedRng::ctr(format!("c13large:{seed}:{}", id_hex::<C>(id)));
+        let (s, p) = if refresh { C::w_refresh_dkg_part1(*id, n, n, &mut rng) } else { C::w_part1(*id, n, n, &mut rng) }.map_err(e2s("part1"))?;
+        if *id == ids[0] {
+            mine = Some(s);
+        }
+        p1.insert(*id, p);
+    }
+    let pfx = if refresh { "refresh" } else { "dkg" };
+    let sp = env.pass(format!("{pfx}.large-round1-secret"), mine.unwrap());
+    let r1 = env.pass(format!("{pfx}.large-round1-packages-in-transit"), others::<C, _>(&p1, &ids[0]));
+    let (sp2, out) = if refresh { C::w_refresh_dkg_part2(sp, &r1) } else { C::w_part2(sp, &r1) }.map_err(e2s("part2"))?;
+    let sp2 = env.pass(format!("{pfx}.large-round2-secret"), sp2);
+    env.out(format!("{pfx}.large-round2-secret"), &sp2);
+    env.out(format!("{pfx}.large-round2-packages"), &out);
+    Ok(())
 }
 
 fn labels_of(proto: Proto, n: u16, t: u16) -> Vec<String> {
@@ -633,6 +671,18 @@ impl Prop for C13 {
                             }
                             out.push(serde_json::to_value(Case { suite: suite.to_string(), proto, n, t, fmt, crashes: m.clone(), seed: format!("s{seed}") }).unwrap());
                         }
+                    }
+                }
+            }
+        }
+        for proto in [Proto::LargeDkgPart2, Proto::LargeRefreshPart2] {
+            for suite in REAL_SUITES {
+                if suite == "ed448" && tier == Tier::Quick && proto == Proto::LargeRefreshPart2 {
+                    continue;
+                }
+                for fmt in [Fmt::Postcard, Fmt::Json, Fmt::Fields] {
+                    for m in [vec![], vec![0], vec![1], vec![2], vec![0, 1, 2]] {
+                        out.push(serde_json::to_value(Case { suite: suite.to_string(), proto, n: 72, t: 72, fmt, crashes: m, seed: format!("s{seed}") }).unwrap());
                     }
                 }
             }
